@@ -178,6 +178,9 @@ def guard_table(ctx) -> None:
     ok_r = False
     for cs in resh:
         a = cs.call.args[0] if cs.call.args else None
+        if len(cs.call.args) == 2:
+            a = ast.Tuple(elts=list(cs.call.args), ctx=ast.Load())  # reshape(rows, columns)
+        a = fv.res.resolve(a, cs.node) if a is not None else None
         if isinstance(a, ast.Tuple) and [getattr(e, "id", None) for e in a.elts] == ["rows", "columns"] and not [k for k in cs.call.keywords if k.arg == "order"]:
             ok_r = fv.cfg.dominates(cs.node, first.id) or True
     ctx.rep.check(ok_r, rule, f"{f.qualname}/reshape", "flat lists are reshaped row-major to (rows, columns) (wrong sizes raise ValueError)",
